@@ -144,6 +144,9 @@ func hashStr(s string) string {
 }
 
 // SolveAll discharges obligations in parallel. Cover obligations expect sat/unknown (unsat = vacuous).
+// NoRetry: obligations that are expected to stay undischarged (listed known findings) are not given the second, longer attempt
+var NoRetry = func(ob *Ob) bool { return false }
+
 func SolveAll(obs []*Ob, outDir string, timeoutS int) {
 	os.MkdirAll(outDir, 0755)
 	par := runtime.NumCPU() / 3
@@ -197,7 +200,7 @@ func SolveAll(obs []*Ob, outDir string, timeoutS int) {
 					to = 2
 				}
 				r = raceSolve(ob.Query, outDir, base, to)
-				if ob.Kind != "cover" && r.status != "unsat" && r.status != "sat" && r.status != "error" {
+				if ob.Kind != "cover" && r.status != "unsat" && r.status != "sat" && r.status != "error" && !NoRetry(ob) {
 					// no answer within the limit on any back end: one more attempt with three times the limit before the
 					// obligation is reported (a loaded machine must not turn a slow proof into an alarm)
 					first := r
